@@ -1400,3 +1400,70 @@ func describePath(p *Path) string {
 	}
 	return "blocks[" + strings.Join(bs, ",") + "] " + p.String()
 }
+
+var tableAliasCache = map[*ssa.Global]*ssa.Global{}
+
+// tableAlias: g is an unexported package-level map variable of the module that is assigned
+// exactly once, in an init function, with the value of another package-level variable h, and
+// is otherwise only loaded: after start-up g and h are the same map, so g is rendered as h.
+func (w *World) tableAlias(g *ssa.Global) *ssa.Global {
+	if h, ok := tableAliasCache[g]; ok {
+		return h
+	}
+	tableAliasCache[g] = nil
+	if g.Pkg == nil || !strings.HasPrefix(g.Pkg.Pkg.Path(), modulePath) || g.Object() == nil || g.Object().Exported() {
+		return nil
+	}
+	if _, isMap := g.Type().(*types.Pointer).Elem().Underlying().(*types.Map); !isMap {
+		return nil
+	}
+	var target *ssa.Global
+	stores := 0
+	ok := true
+	scan := func(f *ssa.Function, isInit bool) {
+		instrsOf(f, func(in ssa.Instruction) {
+			var ops []*ssa.Value
+			for _, op := range in.Operands(ops) {
+				if *op != ssa.Value(g) {
+					continue
+				}
+				switch x := in.(type) {
+				case *ssa.UnOp:
+					if x.Op != token.MUL {
+						ok = false
+					}
+				case *ssa.Store:
+					ld, isLd := x.Val.(*ssa.UnOp)
+					if x.Addr != ssa.Value(g) || !isInit || !isLd || ld.Op != token.MUL {
+						ok = false
+						continue
+					}
+					h, isG := ld.X.(*ssa.Global)
+					if !isG || h == g {
+						ok = false
+						continue
+					}
+					target = h
+					stores++
+				default:
+					ok = false
+				}
+			}
+		})
+	}
+	pkgInit := g.Pkg.Func("init")
+	for _, f := range w.SrcFuncs() {
+		if f == pkgInit {
+			continue
+		}
+		scan(f, f.Parent() == nil && f.Signature.Recv() == nil && (f.Name() == "init" || strings.HasPrefix(f.Name(), "init#")))
+	}
+	if pkgInit != nil {
+		scan(pkgInit, true)
+	}
+	if ok && stores == 1 && target != nil {
+		tableAliasCache[g] = target
+		return target
+	}
+	return nil
+}
